@@ -215,3 +215,117 @@ def u_contract():
     c.feas_timeout_ms = 1500
     c.split_conjunctions = True
     return c
+
+
+# ------------------------------------------------------------------------------------------- assign_registers: one symbol
+# The body of `for sym in symbols:` of the real assign_registers, for one symbol in an arbitrary state of the loop:
+# a symbol already mapped keeps its mapping; otherwise colour c of the scope is the c-th register NOT blocked by a caller,
+# and a colour beyond the registers that are left is the out-of-registers error (never an index error, never r16+).
+def _symbol_body():
+    import ast
+
+    f = X.find_function(X.module_ast("register_assignment.py"), "assign_registers")
+    loops = [n for n in ast.walk(f) if isinstance(n, ast.For) and isinstance(n.target, ast.Name) and n.target.id == "sym" and ast.unparse(n.iter) == "symbols"]
+    if len(loops) != 1:
+        raise Unsupported(f"sidecar out of date: expected one `for sym in symbols:` loop in assign_registers, found {len(loops)}")
+    return f, loops[0]
+
+
+def body_fun(eng):
+    import ast
+
+    f, loop = _symbol_body()
+    once = ast.For(target=ast.Name(id="_once", ctx=ast.Store()), iter=ast.Tuple(elts=[ast.Constant(value=0)], ctx=ast.Load()), body=list(loop.body), orelse=[], lineno=loop.lineno, col_offset=0)
+    ret = ast.parse("return (sym.code_expr, mapping, used_registers, blocked_registers)").body
+    fn = X.as_function("assign_registers__for_sym_body", ["sym", "mapping", "available_registers", "used_registers", "blocked_registers"], [once] + ret)
+    return X.vfun(fn, "register_assignment.assign_registers@for-sym")
+
+
+def body_pre(sym, mapping, available_registers, used_registers, blocked_registers):
+    a = available_registers
+    return (sym._color >= -1 and len(a) <= 16 and all(0 <= a[i] and a[i] < 16 for i in range(len(a)))
+            and all(a[i] < a[i + 1] for i in range(len(a) - 1)))
+
+
+def body_post_mapped_symbol_keeps_mapping(sym, mapping, available_registers, used_registers, blocked_registers, result):
+    name0, color, was_mapped, old_text = sym.ghost_name, sym._color, sym.ghost_was_mapped, sym.ghost_old_text
+    text, m2, used2, blocked2 = result
+    return (not was_mapped) or text == old_text
+
+
+def body_post_colour_is_the_cth_free_register(sym, mapping, available_registers, used_registers, blocked_registers, result):
+    name0, color, was_mapped = sym.ghost_name, sym._color, sym.ghost_was_mapped
+    text, m2, used2, blocked2 = result
+    reg = available_registers[color] if (not was_mapped) else 0
+    return was_mapped or (0 <= color and color < len(available_registers) and 0 <= reg and reg < 16
+                          and text == "r" + str(reg) and name0 in m2 and m2[name0] == text and reg in used2 and reg in blocked2)
+
+
+def body_raises_out_of_registers(sym, mapping, available_registers, used_registers, blocked_registers):
+    return (not sym.ghost_was_mapped) and sym._color >= len(available_registers)
+
+
+def body_raises_uncoloured(sym, mapping, available_registers, used_registers, blocked_registers):
+    return (not sym.ghost_was_mapped) and sym._color == -1
+
+
+def native_body_search(clause):
+    """whole assign path, natively: programs with more simultaneously live values than registers must end in the error"""
+    from stationeers_pytrapic.compiler import compile_code
+
+    for n in (15, 16, 17, 20):
+        src = "from stationeers_pytrapic.symbols import *\n" + "".join(f"v{i} = d0.Setting + {i}\n" for i in range(n)) + "while True:\n" + "".join(f"    v{i} = v{i} + d0.On\n" for i in range(n)) + "    db.Setting = " + " + ".join(f"v{i}" for i in range(n)) + "\n    yield_()\n"
+        try:
+            r = compile_code(src)
+        except Exception as e:
+            return {"sources": src}, f"compile_code raised {type(e).__name__}: {e}"
+        import re
+
+        regs = set(re.findall(r"\br(\d+)\b", r.get("code", "")))
+        if any(int(x) > 15 for x in regs):
+            return {"sources": src}, f"registers beyond r15 in the output: {sorted(regs, key=int)[-3:]}"
+        if "code" in r and n > 16:
+            return {"sources": src}, f"{n} simultaneously live values were accepted"
+        if "error" in r and "registers" not in r["error"].get("description", "") :
+            return {"sources": src}, "error is not the out-of-registers error: " + r["error"].get("description", "")[:200]
+    return None
+
+
+def symbol_body_contract():
+    from pyvc.ulist import SymIntSet, SymStrMap
+
+    f, loop = _symbol_body()
+
+    def mk_sym(st, pname):
+        name = VStr(fresh("virtual_name", z3.StringSort()))
+        return st.new_obj("IC10Register", {"code_expr": name, "_color": VInt(fresh("color", INT)), "_is_intermediate": VBool(fresh("interm", z3.BoolSort())),
+                                           "ghost_name": name, "ghost_was_mapped": VC(False), "ghost_old_text": VC("")})
+
+    def mk_map(st, pname):
+        return VDict(st.alloc({"__sym__": SymStrMap.fresh(st, "mapping")}))
+
+    def mk_avail(st, pname):
+        return new_list(st, SymSeq.fresh(st, "available", 0))
+
+    def mk_set(st, pname):
+        return VSet(st.alloc({"__sym__": SymIntSet.fresh(st, pname)}))
+
+    def setup(eng, st, args):
+        # ghost fields of the symbol: whether its virtual name was mapped on entry, and to what
+        sym, m = args["sym"], st.store[args["mapping"].oid]["__sym__"]
+        name = st.store[sym.oid]["code_expr"].t
+        st.store[sym.oid]["ghost_was_mapped"] = VBool(z3.Select(m.dom, name))
+        st.store[sym.oid]["ghost_old_text"] = VStr(z3.Select(m.val, name))
+
+    c = Contract(name="register_assignment.assign_registers@for-sym", fun=body_fun,
+                 params=[("sym", [KCustom("symbol: any virtual name, any colour", mk_sym, lambda m, v: None)]), ("mapping", [KCustom("mapping: any", mk_map, lambda m, v: None)]),
+                         ("available_registers", [KCustom("free registers: increasing, within r0-r15", mk_avail, lambda m, v: None)]),
+                         ("used_registers", [KCustom("set", mk_set, lambda m, v: None)]), ("blocked_registers", [KCustom("set", mk_set, lambda m, v: None)])],
+                 pre=body_pre, post={"mapped_symbol_keeps_its_register": body_post_mapped_symbol_keeps_mapping, "colour_c_is_the_cth_free_register_r0_to_r15": body_post_colour_is_the_cth_free_register},
+                 raises={"CompilerError": body_raises_out_of_registers, "RuntimeError": body_raises_uncoloured}, world={"CompilerError": VType("CompilerError"), "RuntimeError": VType("RuntimeError")},
+                 setup=setup, search=native_body_search, timeout=60.0,
+                 describe=dict(file="src/stationeers_pytrapic/register_assignment.py", lines=[loop.lineno, loop.end_lineno], sha256_of_extracted_source=X.sha(loop),
+                               track="U (loop-free block: the body of `for sym in symbols`, one arbitrary iteration)",
+                               extraction_drops=["the construction of available_registers (sorted(set(range(16)) - parent registers)) is the precondition: increasing, within 0..15", "type annotations"]))
+    c.feas_timeout_ms = 500
+    return c
